@@ -233,9 +233,11 @@ def getView (σ : State) (t : Nat) (pos : List Nat) : State :=
 /-- NumPy integer-list indexing of a length-`n` axis: every entry must be in range -/
 def fancyPos (n : Nat) (idx : List Int) : Option (List Nat) := idx.mapM (pyIntIndex n)
 
-/-- NumPy boolean-mask indexing: the mask must have the axis length -/
+/-- NumPy boolean-mask indexing: the mask must have the axis length — except that NumPy accepts an EMPTY
+    boolean array on an axis of any length (it selects nothing) -/
 def maskPos (n : Nat) (mask : List Bool) : Option (List Nat) :=
-  if mask.length = n then some ((List.range n).filter (fun i => mask.getD i false)) else none
+  if mask.length = n then some ((List.range n).filter (fun i => mask.getD i false))
+  else if mask.isEmpty then some [] else none
 
 /-- `seq[i] = arr` (same number of rows), array_sequence.py:433-436 -/
 def setRange (σ : State) (bid : Nat) (r : Nat × Nat) (el : Elem) : State :=
@@ -359,6 +361,43 @@ def iopOrig (f : Elem → Elem) (σ : State) (t : Nat) : Option State :=
     let σ3 := σ2.setSeq t { s with buf := id }
     some (opLoop f σ3 id id rs rs)
 
+/-- index of `ArraySequence.__getitem__` / `__setitem__` / `Tractogram.__getitem__` other than an int: a slice,
+    a list / range / integer ndarray of positions, or a boolean ndarray -/
+inductive TIdx where
+  | slice (sl : PySlice)
+  | fancy (idx : List Int)
+  | mask (m : List Bool)
+  deriving Repr, DecidableEq, Inhabited
+
+/-- positions an index selects in a sequence of `n` arrays (`self._offsets[idx]`; each sequence of a tractogram is
+    indexed on its own, tractogram.py:403-411) -/
+def idxPos (n : Nat) : TIdx → Except Err (List Nat)
+  | .slice sl => if sl.stepVal = 0 then .error .value else .ok (sl.sel n)
+  | .fancy idx => match fancyPos n idx with
+    | some p => .ok p
+    | none => .error .index
+  | .mask m => match maskPos n m with
+    | some p => .ok p
+    | none => .error .index
+
+/-- `data[o1:o1+l1] = k` for a Python number: every item of every row -/
+def fill (k : Int) (el : Elem) : Elem := el.map (fun row => row.map (fun _ => k))
+
+/-- the loop of `__setitem__` with an ArraySequence value, array_sequence.py:469-470: element by element,
+    `data[o1:o1+l1] = elements._data[o2:o2+l2]`, every iteration reading the CURRENT buffers (target and value
+    may share a buffer).  It is `opLoop id` : read range `v` of buffer `vb`, write it to range `r` of `db`. -/
+def setLoop (σ : State) (db vb : Nat) (rs vs : List (Nat × Nat)) : State := opLoop id σ db vb rs vs
+
+/-- `seq[idx] = other` with `other` an ArraySequence, once the selected ranges `rs` of `seq` are known,
+    array_sequence.py:460-470: the number of arrays, then the total number of rows must agree (ValueError);
+    element-by-element unequal row counts are not generated (NumPy broadcasts or raises part-way) -/
+def setSeq (σ : State) (t : Nat) (rs : List (Nat × Nat)) (v : Nat) : Except Err State :=
+  let o := σ.seqAt v
+  if rs.length != o.ranges.length then .error .value
+  else if (rs.map (·.2)).sum != (o.ranges.map (·.2)).sum then .error .value
+  else if !lensMatch rs o.ranges then .error .bad
+  else .ok (setLoop σ (σ.seqAt t).buf o.buf rs o.ranges)
+
 /-! ### operations of a history -/
 
 inductive Op where
@@ -382,6 +421,9 @@ inductive Op where
   | opSeq (t v : Nat) (code : Nat)                         -- `s + other` / `*` / `-` / `<`
   | unary (t : Nat) (code : Nat)                           -- `-s` / `abs(s)`
   | iopF (t : Nat) (code : Nat) (k : Int)                  -- `s += 2.0` …: a Python FLOAT scalar (integer-valued)
+  | setIdxSeq (t : Nat) (idx : TIdx) (v : Nat)             -- `s[idx] = other`, other an ArraySequence (any live one)
+  | setIdxList (t : Nat) (idx : TIdx) (els : List Elem)    -- `s[idx] = [arr,…]`, idx a slice / list / ndarray / mask
+  | setIdxNum (t : Nat) (idx : TIdx) (k : Int)             -- `s[idx] = k`, a Python number
   deriving Repr, DecidableEq, Inhabited
 
 /-- `s.extend(u)` with `u` an ArraySequence: `len(u)`, `u[0]` and iteration read `u`'s arrays;
@@ -483,6 +525,29 @@ def step (σ : State) : Op → Except Err State
         match opNew (unary code) σ t with
         | some σ' => .ok σ'
         | none => .error .stopIter
+      else .error .bad
+  | .setIdxSeq t idx v =>
+      -- `self._offsets[idx]` (IndexError / ValueError) comes first, then the two count tests
+      if t < σ.seqs.length ∧ v < σ.seqs.length then
+        match idxPos (σ.seqAt t).ranges.length idx with
+        | .error e => .error e
+        | .ok pos => setSeq σ t (pos.filterMap (fun i => (σ.seqAt t).ranges[i]?)) v
+      else .error .bad
+  | .setIdxList t idx els =>
+      if t < σ.seqs.length then
+        match idxPos (σ.seqAt t).ranges.length idx with
+        | .error e => .error e
+        | .ok pos =>
+          let rs := pos.filterMap (fun i => (σ.seqAt t).ranges[i]?)
+          if sizesMatch rs els then .ok (setMany σ (σ.seqAt t).buf rs els) else .error .bad
+      else .error .bad
+  | .setIdxNum t idx k =>
+      if t < σ.seqs.length then
+        match idxPos (σ.seqAt t).ranges.length idx with
+        | .error e => .error e
+        | .ok pos =>
+          let rs := pos.filterMap (fun i => (σ.seqAt t).ranges[i]?)
+          .ok (opLoop (fill k) σ (σ.seqAt t).buf (σ.seqAt t).buf rs rs)
       else .error .bad
   | .concat ts w =>
       match ts with
@@ -586,20 +651,6 @@ def tnew (τ : TState) (src : Option Nat) (dpp : List (Nat × Nat)) (asList : Bo
   | some (σ2, d) => some ⟨σ2, τ.tracts ++ [⟨σ.seqs.length, d, n⟩]⟩
   | none => none
 
-/-- index of `Tractogram.__getitem__`: a slice or a list of integers -/
-inductive TIdx where
-  | slice (sl : PySlice)
-  | fancy (idx : List Int)
-  deriving Repr, DecidableEq, Inhabited
-
-/-- positions an index selects in a sequence of `n` arrays (each sequence of the tractogram is indexed
-    on its own, tractogram.py:403-411) -/
-def idxPos (n : Nat) : TIdx → Except Err (List Nat)
-  | .slice sl => if sl.stepVal = 0 then .error .value else .ok (sl.sel n)
-  | .fancy idx => match fancyPos n idx with
-    | some p => .ok p
-    | none => .error .index
-
 /-- the index applied to every sequence of the list: the temporaries `seq[idx]` -/
 def idxAll (σ : State) (idx : TIdx) : List (Nat × Nat) → Except Err (List (Nat × Nat × List Nat))
   | [] => .ok []
@@ -678,12 +729,42 @@ def tset (τ : TState) (T k src : Nat) (asList : Bool) (w : Nat) : Option TState
   | some (σ1, d) => some ⟨σ1, τ.tracts.set T { t with dpp := d }⟩
   | none => none
 
+/-- first-occurrence de-duplication (the `memo` of `copy.deepcopy`: one copy per distinct object) -/
+def dedupNat : List Nat → List Nat
+  | [] => []
+  | b :: bs => b :: (dedupNat bs).filter (· != b)
+
+/-- `T.copy()` = `copy.deepcopy(T)`, tractogram.py:423-425: every ArraySequence `T` holds is copied WITH its whole
+    `_data` ndarray (all allocated rows, not compacted), keeping `_offsets/_lengths`, `_is_view` and
+    `_buffer_size`; deepcopy's memo keeps the sharing INSIDE the tractogram (two of its sequences on one ndarray
+    get one new ndarray).  The new ndarrays are `σ.heap.length + i` for the i-th distinct buffer, the new
+    sequences `σ.seqs.length + j` for the j-th distinct sequence. -/
+def tcopy (τ : TState) (T : Nat) : TState :=
+  let t := τ.tractAt T
+  let σ := τ.st
+  let ms := dedupNat t.members
+  let bs := dedupNat (ms.map (fun m => (σ.seqAt m).buf))
+  let σ1 : State :=
+    { heap := σ.heap ++ bs.map σ.bufAt,
+      seqs := σ.seqs ++ ms.map (fun m => { σ.seqAt m with buf := σ.heap.length + bs.idxOf (σ.seqAt m).buf }) }
+  let ren := fun m => σ.seqs.length + ms.idxOf m
+  ⟨σ1, τ.tracts ++ [⟨ren t.sl, t.dpp.map (fun kf => (kf.1, ren kf.2)), t.nRows⟩]⟩
+
+/-- `T + U`, tractogram.py:531-534: `tractogram = self.copy(); tractogram += other`.  When the extend raises the
+    copy is dropped: no live object has changed (the copy was private). -/
+def tadd (τ : TState) (T U : Nat) (w : Nat) : TState × Option Err :=
+  match textend (tcopy τ T) τ.tracts.length U w with
+  | (τ2, none) => (τ2, none)
+  | (_, some e) => (τ, some e)
+
 inductive TOp where
   | seq (op : Op)
   | tnew (src : Option Nat) (dpp : List (Nat × Nat)) (asList : Bool) (w : Nat)
   | tget (T : Nat) (idx : TIdx)
   | textend (T U : Nat) (w : Nat)
   | tset (T k src : Nat) (asList : Bool) (w : Nat)
+  | tcopy (T : Nat)                                          -- `T.copy()`
+  | tadd (T U : Nat) (w : Nat)                              -- `T + U`
   deriving Repr, DecidableEq, Inhabited
 
 /-- one step of a tractogram history: the new state (an operation that raises may have changed it:
@@ -712,6 +793,8 @@ def tstep (τ : TState) : TOp → TState × Option Err
         | some τ' => (τ', none)
         | none => (τ, some .value)
       else (τ, some .bad)
+  | .tcopy T => if T < τ.tracts.length then (tcopy τ T, none) else (τ, some .bad)
+  | .tadd T U w => if T < τ.tracts.length ∧ U < τ.tracts.length then tadd τ T U w else (τ, some .bad)
 
 def trun (τ : TState) : List TOp → TState
   | [] => τ
